@@ -42,8 +42,10 @@ def run(sid):
         meta["applied_to"] = base if base != "HEAD" else subprocess.run("git -C /repo log --format=%h -1", shell=True, capture_output=True, text=True).stdout.strip()
         props = [meta["breaks_property"]] if only_target else ALL
         for prop in props:
+            if os.environ.get("MATRIX_KEEP_TARGET") and prop == meta["breaks_property"] and meta["checks"].get(prop, {}).get("exit") == 1:
+                continue        # (a reduced-budget cross sweep does not re-judge the target check)
             env = dict(os.environ, VERIF_REPO=d + "/repo", VERIF_REPLAY_DIR=d + "/replays", VERIF_EVIDENCE_DIR=d + "/evidence",
-                       VERIF_WORKERS="5", VERIF_BUDGET_S="60")
+                       VERIF_WORKERS="5", VERIF_BUDGET_S=os.environ.get("MATRIX_BUDGET_S", "60"))
             t0 = time.time()
             cp = subprocess.run([(AS_OF or os.environ.get("VERIF_CHECK_HOME") or V) + "/check", prop, "quick"], capture_output=True, text=True, env=env, timeout=3600)
             lines = cp.stdout.splitlines()
